@@ -52,6 +52,23 @@ CLAIMED = {
              "Correspondence is sampled differential testing. Axioms: propext, Classical.choice, Quot.sound.",
         technique="Lean 4 invariant proof over unbounded histories + differential correspondence on the real framing code",
         ref="DESIGN.md §5 C01"),
+    "C09": dict(
+        text="Lean 4 invariant proof on a model of the TLS connection machine of xcm_tp_btls.c (try_finish_tls_handshake + "
+             "verify_peer_cert, process_ssl_event, btls_send/receive/finish): for EVERY history of calls and EVERY answer OpenSSL "
+             "can give, a connection is ready - xcm_finish succeeds, SSL_write/SSL_read are called at all, a byte is accepted from "
+             "or delivered to the application - only if the handshake call returned success and, with tls.auth on, a certificate "
+             "was presented and accepted (C09_usable_only_if_verified, run_inv; C09_no_write/read_unless_verified, "
+             "C09_finish_success_only_if_verified); otherwise the completing call makes the connection bad(EPROTO), reports "
+             "EPROTO itself and nothing is ever written or delivered in any continuation (C09_policy_failure_reports_EPROTO, "
+             "C09_rejected_peer_never_served). Tie: the real xcm_tp_btls.c #included over scripted OpenSSL calls and a scripted "
+             "btcp socket (ASan+UBSan) vs the compiled model, exhaustively over event x first observer x state x tls.auth x verdict "
+             "plus random histories, with gating monitors on the implementation's output.",
+        note="What OpenSSL itself decides for a given chain/validity/CRL/EKU/name under the flags set_verify configures is the "
+             "environment (K-openssl-verify); the inheritance of policy attributes server->accepted socket and the EINVAL "
+             "combinations are exercised on the real library by the sys_tls matrix when present in the check's rule text, not proved. "
+             "Axioms: propext, Classical.choice, Quot.sound.",
+        technique="Lean 4 invariant proof over unbounded call/answer histories + differential correspondence on the real btls code",
+        ref="DESIGN.md §5 C09"),
     "C07": dict(
         text="Lean 4 proofs on the framing model for an ARBITRARY arrived byte stream in arbitrary segmentation: the "
              "receive buffer never exceeds one maximum-size frame and no mbuf.h assertion can fire (C07_bounded_buffer), "
